@@ -898,8 +898,12 @@ static void dump_chrome_task_rstack(struct uftrace_dump_ops *ops, struct uftrace
 	}
 
 	/* escape the function name */
-	for (i = 0; i < namelen; i++)
+	for (i = 0; i < namelen; i++) {
+		/* the longest escape sequence takes 5 bytes and a NUL */
+		if (len < 6)
+			break;
 		print_json_escaped_char(&p, &len, name[i]);
+	}
 	*p = '\0';
 
 	if (chrome->last_comma)
